@@ -52,9 +52,13 @@ def decPyV (j : Json) : D PyV :=
     | .error _ =>
     match j.getObjVal? "f" with
     | .ok v => do
-        match ratOfHex (← v.getStr?) with
+        let h ← v.getStr?
+        match ratOfHex h with
         | some q => pure (.float q)
-        | none => pure .inf
+        | none =>
+          -- only +inf is a value of the model; NaN and -inf are refused rather than silently mapped
+          if h == "7ff0000000000000" then pure .inf
+          else throw s!"unsupported float {h}: NaN and -inf are outside the value model PyV"
     | .error _ =>
     match j.getObjVal? "s" with
     | .ok v => do pure (.str (← v.getStr?))
@@ -62,6 +66,13 @@ def decPyV (j : Json) : D PyV :=
     match j.getObjVal? "b" with
     | .ok v => do pure (.bool (← v.getBool?))
     | .error _ => throw s!"bad PyV {j.compress}"
+
+/-- a threshold / overlap size as the package sees it: in Python `bool` is a subclass of `int` (`True` behaves as `1` in every
+    comparison and product the package forms), so a bool threshold is decoded as that int -/
+def decThr (j : Json) : D PyV := do
+  match ← decPyV j with
+  | .bool b => pure (.int (if b then 1 else 0))
+  | v => pure v
 
 def encErr : PyErr → String
   | .zeroDiv => "ZeroDivisionError" | .overflow => "OverflowError" | .typeErr => "TypeError"
@@ -159,7 +170,7 @@ def decFCfg (j : Json) : D FCfg := do
   let m ← strF j "measure"
   match Measure.ofName? m with
   | none => throw s!"bad measure {m}"
-  | some mm => pure { measure := mm, threshold := ← decPyV (← fld j "threshold"), qval := ← decPyV (fldD j "qval" Json.null) }
+  | some mm => pure { measure := mm, threshold := ← decThr (← fld j "threshold"), qval := ← decPyV (fldD j "qval" Json.null) }
 
 def decFilterObj (j : Json) : D FilterObj := do
   pure { cfg := ← decFCfg j, allowEmpty := boolFD j "allow_empty" true, allowMissing := boolFD j "allow_missing" false }
@@ -171,7 +182,7 @@ def decTableArgs (j : Json) : D TableArgs := do
          lPre := strFD j "l_pre" "l_", rPre := strFD j "r_pre" "r_", nJobs := intFD j "n_jobs" 1 }
 
 def decJoinArgs (j : Json) : D JoinArgs := do
-  pure { toTableArgs := ← decTableArgs j, threshold := ← decPyV (← fld j "threshold"),
+  pure { toTableArgs := ← decTableArgs j, threshold := ← decThr (← fld j "threshold"),
          compOp := strFD j "comp_op" ">=", allowEmpty := boolFD j "allow_empty" true,
          allowMissing := boolFD j "allow_missing" false, outSimScore := boolFD j "out_sim_score" true }
 
@@ -218,7 +229,7 @@ def handle (j : Json) : D Json := do
   match op with
   | "gen" =>
     let fn ← strF j "fn"
-    let args ← (← arrF j "args").toList.mapM decPyV
+    let args ← (← arrF j "args").toList.mapM decThr
     let a (i : Nat) : PyV := args.getD i .none
     let r ← match fn with
       | "get_size_lower_bound" => pure (Gen.get_size_lower_bound (a 0) (a 1) (a 2))
@@ -305,7 +316,7 @@ def handle (j : Json) : D Json := do
       let a ← p.getArr?
       pure (← decCell (a.getD 0 Json.null), ← decCell (a.getD 1 Json.null)))
     if kind == "overlap" then
-      let f : OverlapFilterObj := { overlapSize := ← decPyV (← fld j "overlap_size"), compOp := strFD j "comp_op" ">=",
+      let f : OverlapFilterObj := { overlapSize := ← decThr (← fld j "overlap_size"), compOp := strFD j "comp_op" ">=",
                                     allowMissing := boolFD j "allow_missing" false }
       pure (Json.mkObj [("ok", Json.arr (pairs.map (fun (l, r) => encExceptBool (overlapFilterPairPy f (toks mode) l r))).toArray)])
     else
@@ -342,7 +353,7 @@ def handle (j : Json) : D Json := do
     let m ← strF j "measure"
     let a ← decStrList (← fld j "a")
     let b ← decStrList (← fld j "b")
-    let t ← decPyV (← fld j "threshold")
+    let t ← decThr (← fld j "threshold")
     let cop := strFD j "comp_op" ">="
     match Measure.ofName? m with
     | none => throw s!"bad measure {m}"
@@ -376,12 +387,12 @@ def handle (j : Json) : D Json := do
     let t := (← decTokObj (fldD j "tokenizer" Json.null)).getD { isTokenizer := false }
     let toks := decToks (fldD j "toks" Json.null)
     if kind == "overlap" then
-      match mkOverlapFilter (← decPyV (← fld j "overlap_size")) (strFD j "comp_op" ">=") (boolFD j "allow_missing" false) t with
+      match mkOverlapFilter (← decThr (← fld j "overlap_size")) (strFD j "comp_op" ">=") (boolFD j "allow_missing" false) t with
       | .error e => pure (Json.mkObj [("err", Json.str (encErr e)), ("stage", Json.str "ctor")])
       | .ok f => pure (encExceptFrame (overlapFilterTables f a (boolFD j "out_sim_score" false) (toks t.returnSet) cpu))
     else
       let k ← filterKindOf kind
-      match mkFilter (← strF j "measure") (← decPyV (← fld j "threshold")) (boolFD j "allow_empty" true) (boolFD j "allow_missing" false) t with
+      match mkFilter (← strF j "measure") (← decThr (← fld j "threshold")) (boolFD j "allow_empty" true) (boolFD j "allow_missing" false) t with
       | .error e => pure (Json.mkObj [("err", Json.str (encErr e)), ("stage", Json.str "ctor")])
       | .ok f => pure (encExceptFrame (filterTables k f a t toks cpu))
   | "filter_candset" =>
@@ -393,12 +404,12 @@ def handle (j : Json) : D Json := do
                               lKey := ← strF j "l_key", rKey := ← strF j "r_key", lAttr := ← strF j "l_attr", rAttr := ← strF j "r_attr",
                               nJobs := intFD j "n_jobs" 1 }
     if kind == "overlap" then
-      match mkOverlapFilter (← decPyV (← fld j "overlap_size")) (strFD j "comp_op" ">=") (boolFD j "allow_missing" false) t with
+      match mkOverlapFilter (← decThr (← fld j "overlap_size")) (strFD j "comp_op" ">=") (boolFD j "allow_missing" false) t with
       | .error e => pure (Json.mkObj [("err", Json.str (encErr e)), ("stage", Json.str "ctor")])
       | .ok f => pure (encExceptFrame (filterCandset ca (overlapFilterPairPy f (toks t.returnSet)) cpu))
     else
       let k ← filterKindOf kind
-      match mkFilter (← strF j "measure") (← decPyV (← fld j "threshold")) (boolFD j "allow_empty" true) (boolFD j "allow_missing" false) t with
+      match mkFilter (← strF j "measure") (← decThr (← fld j "threshold")) (boolFD j "allow_empty" true) (boolFD j "allow_missing" false) t with
       | .error e => pure (Json.mkObj [("err", Json.str (encErr e)), ("stage", Json.str "ctor")])
       | .ok f => pure (encExceptFrame (filterCandset ca (filterPairPy k f (toks t.returnSet)) cpu))
   | "apply_matcher" =>
@@ -408,7 +419,7 @@ def handle (j : Json) : D Json := do
     let ma : MatcherArgs := { candset := ← decFrame (fldD j "candset" Json.null), candLKey := ← strF j "cand_l_key", candRKey := ← strF j "cand_r_key",
                               ltable := ← decFrame (fldD j "ltable" Json.null), rtable := ← decFrame (fldD j "rtable" Json.null),
                               lKey := ← strF j "l_key", rKey := ← strF j "r_key", lAttr := ← strF j "l_attr", rAttr := ← strF j "r_attr",
-                              threshold := ← decPyV (← fld j "threshold"), compOp := strFD j "comp_op" ">=",
+                              threshold := ← decThr (← fld j "threshold"), compOp := strFD j "comp_op" ">=",
                               allowMissing := boolFD j "allow_missing" false,
                               lOut := ← decOptStrList j "l_out", rOut := ← decOptStrList j "r_out",
                               lPre := strFD j "l_pre" "l_", rPre := strFD j "r_pre" "r_",
